@@ -48,6 +48,9 @@ Dispatch(e) ==
       [] e.op = "EvaluateQ" -> AEvaluateQ(e.i, e.x, FALSE, "evaluate_ln")
       [] e.op = "Entropy" -> AEntropy(e.i)
       [] e.op = "KL" -> AKL(e.i, e.j)
+      [] e.op = "Integrate" -> AIntegrate(e.i, e.key, e.A, e.B, e.C, e.D)
+      [] e.op = "IntegrateLogFactor" -> AIntegrateLogFactor(e.i, e.j)
+      [] e.op = "Info" -> AInfo(e.kind, e.i, e.j)
       [] OTHER -> FALSE
 
 Reject(e) == Emit(heap, Step("Rejected", [l |-> l, op |-> e.op], NoObj, 0, NoObj, 0, NoObj, NoObj))
